@@ -295,6 +295,9 @@ def known_findings():
             line = line.strip()
             if not line or line.startswith("#"):
                 continue
+            if line.startswith("fixed:"):
+                fixed.append({"status": "fixed", "text": line})
+                continue
             try:
                 d = json.loads(line)
             except Exception:
@@ -304,10 +307,11 @@ def known_findings():
 
 
 def write_evidence(pid, tier, level, coverage, assumptions, wall, violations):
-    os.makedirs(os.path.join(ROOT, "evidence"), exist_ok=True)
+    evdir = os.environ.get("VERIF_EVIDENCE_DIR") or os.path.join(ROOT, "evidence")   # seeded-change runs write elsewhere
+    os.makedirs(evdir, exist_ok=True)
     ev = {"property_id": pid, "tier": tier, "seed": seed(), "level": level, "coverage": coverage,
           "assumptions": assumptions, "wall_s": round(wall, 2), "violations": violations}
-    with open(os.path.join(ROOT, "evidence", pid + ".json"), "w") as f:
+    with open(os.path.join(evdir, pid + ".json"), "w") as f:
         json.dump(ev, f, indent=1, sort_keys=True)
     return ev
 
